@@ -17,6 +17,7 @@ mod c04;
 mod c08;
 mod c12;
 mod c10;
+mod c13;
 
 use out::Out;
 
@@ -66,6 +67,8 @@ fn main() {
                 "c08" => c08::run(&args, &mut out),
                 "c12" => c12::run(&args, &mut out),
                 "c10" => c10::run(&args, &mut out),
+                "c13" => c13::run(&args, &mut out),
+                "c13-repro" => c13::repro(&args, &mut out),
                 s => { eprintln!("unknown stream {s}"); std::process::exit(2); }
             }
             out.write(&args.out);
